@@ -487,6 +487,9 @@ def run_property(prop, module, theorems, tier, seed, nquick, nthorough, feature_
                     ok, why = False, 'reported hit counts differ from the executed line events'
                 elif aspect == 'time' and not p['threads'] and [spec[i] for i in q] != [impl_s[i] for i in q]:
                     ok, why = False, 'reported times differ from the per-activation specification'
+        if ok and aspect == 'time' and any(abs(x.get('unit', 1e-9) - 1e-9) > 1e-24 for x in o['snaps']):
+            # times are compared as integer ticks; the tick the profiler announces must be the nanosecond they are in
+            ok, why = False, 'the reported timer unit is %r, the ticks are nanoseconds' % ([x.get('unit') for x in o['snaps']][:1],)
         if ok and aspect == 'mono':
             ok, why = snaps_wf_monotone(o)
         if ok and aspect in ('hits', 'time') and not outside and 'selfdisable' not in p['features']:
@@ -534,7 +537,7 @@ def run_property(prop, module, theorems, tier, seed, nquick, nthorough, feature_
             coq_ok = {'hits': v[1], 'time': v[1] and v[2], 'mono': v[3]}[aspect]
             if coq_ok != ok and not p['threads'] and (o.get('errA') == o.get('errB')) and hyp.get('SegmentsClosed', True) \
                     and hyp.get('SnapsQuiescent', True) and not o.get('impure') and 'mid-run read' not in why \
-                    and not o.get('not_registered') and 'decorated function' not in why and 'enable window' not in why:
+                    and not o.get('not_registered') and 'decorated function' not in why and 'enable window' not in why and 'timer unit' not in why:
                 res.infra_errors.append('Coq-side and Python-side specification disagree on program %d (%s vs %s: %s)' % (i, coq_ok, ok, why))
         if not ok:
             res.spec_fails.append(dict(case=sample(p, o, 60), program=p['files'], why=why, finding=fid,
